@@ -24,6 +24,7 @@ mod reader;
 mod real;
 mod settings;
 mod small;
+mod sock;
 mod unreal2;
 mod valve;
 mod views;
@@ -57,6 +58,7 @@ fn entries() -> Vec<(&'static str, EntryFn)> {
     v.extend(small::entries());
     v.extend(httpx::entries());
     v.extend(http::entries());
+    v.extend(sock::entries());
     v
 }
 
